@@ -210,6 +210,8 @@ def obligations(prop, tier):
         for cls in (("mixin", "light") if q else ("mixin", "light", "node", "anynode", "symlink")):
             for asrt in (0, 1):
                 out.append(_mut("step_%s_a%d" % (cls, asrt), "c01_body", {"cls": cls, "N": 3, "L": 3, "faults": "all", "F": 1}, asrt, bounds="N<=3 F<=1|persistent"))
+        out.append(_mut("step_mixed_flavours", "c01_body", {"cls": "mixed", "N": 3 if q else 4, "L": 2, "faults": "all", "F": 1}, 0, depth=5,
+                        bounds="N<=%d, forest mixing NodeMixin- and LightNodeMixin-based nodes, <=1 fault|persistent" % (3 if q else 4)))
         for cls in ("mixin_eq", "light_eq"):
             out.append(_mut("step4_%s" % cls, "c01_body", {"cls": cls, "N": 4, "exactN": True, "L": 1, "faults": "none"}, 1, depth=5,
                             bounds="N=4, L<=1, no faults, node class whose instances all compare equal"))
@@ -236,7 +238,11 @@ def obligations(prop, tier):
                 out.append(_mut("history3_%s" % cls, "hist_body", {"cls": cls, "N": 2, "L": 1, "K": 3}, depth=5, bounds="N<=2, 3 successive calls"))
         for cls in ("node", "anynode", "symlink"):
             out.append(_mut("ctor_%s" % cls, "ctor_body", {"cls": cls, "N": 3 if q else 4, "L": 2}, depth=4, bounds="N<=%d existing nodes, children sequences <= 2" % (3 if q else 4)))
+        out.append(_mut("ctor_node_valsem", "ctor_body", {"cls": "node", "valsem": True, "N": 3 if q else 4, "L": 1}, depth=4,
+                        bounds="existing nodes are falsy/all-equal Node subclasses; parent may also be the non-node value 0"))
     elif prop == "C03":
+        for cls in ("mixin_eq", "light_eq"):
+            out.append(_mut("atomic_%s" % cls, "c03_body", {"cls": cls, "N": 3, "L": 2 if q else 3, "faults": "pre", "F": 1}, bounds="N<=3 F<=1|persistent, all-equal/falsy node class"))
         for cls in ("mixin", "light"):
             out.append(_mut("atomic_%s" % cls, "c03_body", {"cls": cls, "N": 3, "L": 3, "faults": "pre", "F": 1}, bounds="N<=3 F<=1|persistent"))
             if not q:
@@ -244,6 +250,8 @@ def obligations(prop, tier):
                 out.append(_mut("atomic3f2_%s" % cls, "c03_body", {"cls": cls, "N": 3, "L": 3, "faults": "pre", "F": 2}, depth=5, bounds="N<=3 F<=2"))
                 out.append(_mut("atomic3tree_%s" % cls, "c03_body", {"cls": cls, "N": 3, "L": 3, "faults": "pre", "F": 1, "veto": "tree"}, bounds="N<=3 TreeError-veto"))
     elif prop == "C16":
+        for cls in ("mixin_eq", "light_eq"):
+            out.append(_mut("hooks_%s" % cls, "c16_body", {"cls": cls, "N": 3, "L": 2, "faults": "none"}, depth=4, bounds="N<=3, no faults, all-equal/falsy node class"))
         for cls in ("mixin", "light"):
             N = 3 if q else 4
             out.append(_mut("hooks_%s" % cls, "c16_body", {"cls": cls, "N": N, "L": 3, "faults": "post", "F": 1, "persistent": False}, depth=4 if q else 6, bounds="N<=%d, <=1 post-hook fault" % N))
@@ -252,6 +260,7 @@ def obligations(prop, tier):
     elif prop == "C18":
         N = 3 if q else 4
         out.append(_mut("lockstep", "c18_body", {"N": N, "L": 3, "faults": "all", "F": 1}, depth=5 if q else 7, bounds="N<=%d F<=1|persistent" % N))
+        out.append(_mut("lockstep_nofault_iterables", "c18_body", {"N": 3, "L": 3, "faults": "none"}, depth=5, bounds="N<=3, no faults, list and one-shot iterator arguments"))
         out.append(_mut("lockstep_valuesem", "c18_body", {"N": N, "L": 2, "faults": "none", "mixcls": "mixin_eq", "lightcls": "light_eq"}, depth=5,
                         bounds="N<=%d, no faults, node classes whose instances all compare equal, are empty and falsy" % N))
     elif prop == "C04":
@@ -304,19 +313,23 @@ def obligations(prop, tier):
         if prop == "C12":
             for ex in ("dot", "unique"):
                 out.append(dict(name="structure_" + ex, module="harness.graphs", body="dot_body", cfg={"N": N, "exporter": ex}, depth=5 if q else 6, bounds="N<=%d" % N, picked=pk, symbolic=sym))
+            out.append(dict(name="structure_unique_valsem", module="harness.graphs", body="dot_body", cfg={"N": 3, "exporter": "unique", "valsem": True}, depth=5, bounds="N<=3, all-equal/falsy node class", picked=pk, symbolic=sym))
             out.append(dict(name="escaping", module="harness.graphs", body="esc_body", cfg={}, depth=2, bounds="symbolic str len<=2; alphabet strings len<=3", picked="alphabet strings", symbolic="name, other name (str, len<=2)", timeout=600))
             out.append(dict(name="to_dotfile", module="harness.graphs", body="files_body", cfg={"N": 3}, depth=2, bounds="N<=3", picked="n, parent vector, name rotation", symbolic="-"))
             out.append(dict(name="to_dotfile_unique", module="harness.graphs", body="files_body", cfg={"N": 3, "unique": True}, depth=2, bounds="N<=3", picked="n, parent vector, name rotation", symbolic="-"))
         else:
             out.append(dict(name="structure_mermaid", module="harness.graphs", body="mermaid_body", cfg={"N": N, "exporter": "mermaid"}, depth=5 if q else 6, bounds="N<=%d" % N, picked=pk, symbolic=sym))
+            out.append(dict(name="structure_mermaid_valsem", module="harness.graphs", body="mermaid_body", cfg={"N": 3, "exporter": "mermaid", "valsem": True}, depth=5, bounds="N<=3, all-equal/falsy node class", picked=pk, symbolic=sym))
             out.append(dict(name="escaping", module="harness.graphs", body="esc_body", cfg={"mermaid": True}, depth=2, bounds="symbolic str len<=2; alphabet strings len<=3", picked="alphabet strings", symbolic="name, other name (str, len<=2)", timeout=600))
             out.append(dict(name="to_file", module="harness.graphs", body="files_body", cfg={"N": 3, "mermaid": True}, depth=2, bounds="N<=3", picked="n, parent vector, name rotation", symbolic="-"))
     elif prop == "C07":
         if q:
             out.append(dict(name="get_semantics", module="harness.resolve", body="get_body", cfg={"N": 3, "L": 3, "rotations": 6}, depth=4, bounds="N<=3 L<=3 6 rotations", picked="n, parent vector, name rotation, components", symbolic="-"))
             out.append(dict(name="get_semantics_dot", module="harness.resolve", body="get_body", cfg={"N": 3, "L": 2, "rotations": 6, "sep": "."}, depth=4, bounds="N<=3 L<=2, separator '.'", picked="same", symbolic="-"))
+            out.append(dict(name="get_semantics_valsem", module="harness.resolve", body="get_body", cfg={"N": 3, "L": 2, "rotations": 3, "valsem": True}, depth=4, bounds="N<=3 L<=2 3 rotations, all-equal/falsy node class", picked="same", symbolic="-"))
             out.append(dict(name="roundtrip", module="harness.resolve", body="roundtrip_body", cfg={"N": 4}, depth=4, bounds="N<=4, 4 separators, 2 path attributes, 22 rotations", picked="separator, pathattr, n, parent vector, name rotation", symbolic="-"))
         else:
+            out.append(dict(name="get_semantics_valsem", module="harness.resolve", body="get_body", cfg={"N": 3, "L": 3, "rotations": 6, "valsem": True}, depth=4, bounds="N<=3 L<=3 6 rotations, all-equal/falsy node class", picked="same", symbolic="-"))
             out.append(dict(name="get_semantics4", module="harness.resolve", body="get_body", cfg={"N": 4, "L": 3, "strides": 2}, depth=5, bounds="N<=4 L<=3 all rotations", picked="n, parent vector, name rotation, stride, components", symbolic="-"))
             out.append(dict(name="get_semantics3", module="harness.resolve", body="get_body", cfg={"N": 3, "L": 4, "rotations": 8}, depth=5, bounds="N<=3 L<=4 8 rotations", picked="same", symbolic="-"))
             for sp in (".", "|", "::"):
@@ -326,6 +339,8 @@ def obligations(prop, tier):
         from smt import glob_regex  # noqa
         out.append(dict(kind="re", name="component_match", module="smt.glob_regex", body="run_partition", cfg={"L": 4 if q else 5}, bounds="pattern length <= %d, 19-char alphabet, names unbounded" % (4 if q else 5),
                         picked="pattern, ignorecase", symbolic="the name (z3 String, any length)"))
+        out.append(dict(name="glob_semantics_valsem", module="harness.resolve", body="glob_body", cfg={"N": 3, "L": 2, "rotations": 2 if q else 6, "valsem": True}, depth=4,
+                        bounds="N<=3 L<=2 %d rotations, all-equal/falsy node class" % (2 if q else 6), picked="n, parent vector, name rotation, components, cache prelude", symbolic="-"))
         if q:
             out.append(dict(name="glob_semantics", module="harness.resolve", body="glob_body", cfg={"N": 3, "L": 2, "rotations": 6}, depth=4, bounds="N<=3 L<=2 6 rotations", picked="n, parent vector, name rotation, components, cache prelude", symbolic="-"))
         else:
